@@ -130,3 +130,14 @@ Fixpoint bad_ciq (cs : seq ciqcase) (i : nat) : seq nat :=
   | c :: r => let code := check_ciq c in
               if code == 0 then bad_ciq r i.+1 else (i * 8 + code) :: bad_ciq r i.+1
   end.
+
+(* ------------------------------------------------------------------ the root-method table (ModelBatch.choose_root_method)
+   against LinearOperator._choose_root_method probed on a real operator whose memoize cache holds the given entries *)
+Record methcase := MkMeth { m_st : sett; m_c : cstate; m_n : nat; m_obs : nat }.
+
+Fixpoint bad_meth (cs : seq methcase) (i : nat) : seq nat :=
+  match cs with
+  | [::] => [::]
+  | c :: r => if rmethod_code (choose_root_method (m_st c) (m_c c) (m_n c)) == m_obs c then bad_meth r i.+1
+              else (i * 8 + 1) :: bad_meth r i.+1
+  end.
